@@ -12,6 +12,11 @@ def configs(tier):
         # pairing inside the real worker loop (Worker._start_single: ids of inputs handed to stream() are paired
         # FIFO with its outputs) with preprocess rejections and failures, two concurrent callers
         ('models.servlet_scn:ServletScn', dict(stages=[1], init_fail=False, work_fail=True, pre_fail=True, callers=2)),
+        # composition semantics: ensemble = list of the members' results in member order (a member with two workers answers
+        # out of order), switch = the selected member; ids are never crossed between two requests in flight
+        ('models.ensemble_scn:EnsembleScn', dict(kind='ensemble', members=2, requests=2, fail_fast=True, member_fail=False,
+                                                 member_threads=2)),
+        ('models.ensemble_scn:EnsembleScn', dict(kind='switch', members=2, requests=2, member_fail=False)),
     ]
     if tier == 'thorough':
         cs += [
@@ -21,6 +26,9 @@ def configs(tier):
             dict(callers=['inf', 'inf'], capacity=1, backpressure=False, work_fail=True),
             dict(callers=[], capacity=1, backpressure=False, stream=[3, None]),
             dict(callers=[], capacity=2, backpressure=False, stream=[3, None], work_fail=False),
+            ('models.ensemble_scn:EnsembleScn', dict(kind='ensemble', members=2, requests=2, fail_fast=False, member_fail=True,
+                                                     member_threads=2, cycles=2)),
+            ('models.ensemble_scn:EnsembleScn', dict(kind='switch', members=3, requests=3, member_fail=False)),
         ]
     return cs
 
